@@ -493,45 +493,6 @@ theorem wk_close_task {p : Pool} {t : Nat} (h : WK (fun x => x = Ref.task t) p)
   · exact fun m r hp _ => h.od m r hp (by simp)
   · exact fun _ f => f.elim
 
-/-- the spawner whose handle was run has ended -/
-theorem wk_close_spawner {p : Pool} {m : Nat} (h : WK (fun x => x = Ref.spawner m) p)
-    (hm : ∀ r, p.reqs[m]? = some r → r.outcome.isSome = true ∧ r.frame = .done) : Want p := by
-  have hne : ∀ i, i ≠ m → ¬ (Ref.spawner i = Ref.spawner m) := fun i c e => c (by cases e; rfl)
-  have hsome : ∀ r, p.reqs[m]? = some r → r.outcome = none → False := fun r hp ho => by
-    have := (hm r hp).1; rw [ho] at this; cases this
-  refine { tq := ?_, tw := ?_, rs := ?_, pn := h.pn, pw := ?_, pe := ?_, mn := h.mn, mw := ?_, me := ?_, od := ?_, ce := ?_ }
-  · exact fun i k hik _ => h.tq i k hik (by simp)
-  · exact fun i k hik _ => h.tw i k hik (by simp)
-  · intro i r hp _ ho
-    by_cases c : i = m
-    · subst c; exact (hsome r hp ho).elim
-    · exact h.rs i r hp (hne i c) ho
-  · intro w hw
-    obtain ⟨r, hp, hc⟩ := h.pw w hw
-    refine ⟨r, hp, fun _ => ?_⟩
-    by_cases c : w.owner = m
-    · exact absurd (mem_owners.mpr ⟨w, hw, c⟩) (h.ce m rfl).1
-    · exact hc (hne _ c)
-  · intro i r hp _ ho
-    by_cases c : i = m
-    · subst c; exact (hsome r hp ho).elim
-    · exact h.pe i r hp (hne i c) ho
-  · intro i r hp w hw
-    obtain ⟨a, b⟩ := h.mw i r hp w hw
-    refine ⟨a, fun _ => ?_⟩
-    by_cases c : i = m
-    · subst c; rw [(h.ce i rfl).2 r hp] at hw; cases hw
-    · exact b (hne i c)
-  · intro i r hp _ ho
-    by_cases c : i = m
-    · subst c; exact (hsome r hp ho).elim
-    · exact h.me i r hp (hne i c) ho
-  · intro i r hp _ ho
-    by_cases c : i = m
-    · subst c; exact (hm r hp).2
-    · exact h.od i r hp (hne i c) ho
-  · exact fun _ f => f.elim
-
 /-! ### plumbing -/
 
 variable {E : Ref → Prop}
